@@ -170,6 +170,9 @@ FD_SCENARIOS = {
     'io-error-join': ('select a1, b1 join B.csv on a1 == b1', 'quoted_rfc'),
     'missing-join-table': ('select a1 join nosuch.csv on a1 == b1', 'quoted'),
     'update': ('update set a1 = NR', 'quoted'),
+    'empty-result-distinct-count': ('select distinct count a1 where NR < 0', 'quoted'),
+    'missing-input': ('select a1', 'quoted'),                    # the output file is opened first, then opening the input fails
+    'missing-input-join': ('select a1, b1 join B.csv on a1 == b1', 'quoted'),
 }
 
 
@@ -189,15 +192,18 @@ fs = FakeFS({'/d/A.csv': text_a, '/d/B.csv': text_b})
 install_fs(fs)
 warnings = []
 try:
-    rbql_csv.query_csv(QUERY, '/d/A.csv', ',', POLICY, '/d/out.csv', ',', POLICY, 'utf-8', warnings, with_headers)
+    rbql_csv.query_csv(QUERY, INPUT, ',', POLICY, '/d/out.csv', ',', POLICY, 'utf-8', warnings, with_headers)
     status = 'ok'
 except (rbql_engine.RbqlParsingError, rbql_engine.RbqlRuntimeError, rbql_engine.RbqlIOHandlingError) as e:
     status = type(e).__name__
+except IOError as e:
+    status = 'IOError'      # opening a path failed: whatever was opened before must still be closed
 opened = len(fs.handles)
 still_open = [h.path for h in fs.handles if not h.closed]
-return ((still_open, opened >= 2), ([], True))
+return ((still_open, opened >= MIN_OPENED), ([], True))
 ''' % ', '.join(exprs))
-    imports = 'from vf import csvh\nQUERY = %r\nPOLICY = %r\n' % (query, policy)
+    missing = scn.startswith('missing-input')
+    imports = 'from vf import csvh\nQUERY = %r\nPOLICY = %r\nINPUT = %r\nMIN_OPENED = %d\n' % (query, policy, '/d/nosuch.csv' if missing else '/d/A.csv', 1 if missing else 2)
     src = harness(imports, [('with_headers', 'bool')] + params, pre + ['%s != 10 and %s != 13' % (n, n) for n, _t in params], body, extra_defs=FS_SRC)
     return Obl('files_closed[%s,lines=%s]' % (scn, '+'.join(map(str, lens))), src, timeout=timeout,
                meta={'query': query, 'function': 'rbql_csv.query_csv', 'bounds': 'every input/join file text with line lengths %s, header flag both ways' % (lens,)})
@@ -207,6 +213,9 @@ PROTO_QUERIES = {
     'stream': 'select a1, a2', 'sorted': 'select a1 order by a2', 'aggregated': 'select a1, count(*) group by a1', 'distinct-count': 'select distinct count a1',
     'distinct+top': 'select top 2 distinct a1', 'unnest': 'select NR, unnest([a1, a2, a1])', 'update': 'update a2 = 7', 'runtime-error': 'select 10 // a1',
     'parse-error': 'select a1 where a2 = 3', 'join': 'select a1, b2 join b on a1 == b1', 'alias-header': 'select a1 as x, a2',
+    # nothing is selected: the wrapping writers must still pass finish() down exactly once
+    'distinct-count-none': 'select distinct count a1 where a2 > 5', 'distinct-none': 'select distinct a1 where a2 > 5', 'sorted-none': 'select a1 where a2 > 5 order by a1',
+    'aggregated-none': 'select a1, count(*) where a2 > 5 group by a1', 'top0': 'select top 0 a1',
 }
 
 
@@ -255,7 +264,7 @@ def obligations(tier, seed):
         for lens in (((1, 1),) if quick else ((1, 1), (2, 1), (1, 2), (0, 1, 1))):
             obs.append(_fd_obl(scn, lens, t))
     for qn in PROTO_QUERIES:
-        for rows in ((2,) if quick else (1, 2, 3)):
+        for rows in ((0, 2) if quick else (0, 1, 2, 3)):
             obs.append(_proto_obl(qn, rows, t))
     seen, uniq = set(), []
     for o in obs:
